@@ -282,7 +282,12 @@ impl ClassSetAlternativeStrings {
     }
 
     fn extend(&mut self, other: impl IntoIterator<Item = Box<[CodePoint]>>) {
-        self.0.extend(other);
+        // A class is a set: a string contributed by several operands is one alternative.
+        for string in other {
+            if !self.0.contains(&string) {
+                self.0.push(string);
+            }
+        }
     }
 
     fn intersect(&mut self, other: &[Box<[CodePoint]>]) {
